@@ -158,6 +158,8 @@ EmitAcc == Accepting2 => PrintT(ToJson(toks))
 
 LettersAll == CmdBytes
 LettersCurvePairs == {77, 67, 99, 83, 115, 81, 113, 84, 116, 76}    \* M C c S s Q q T t L
+CoordsLex == 0..6                \* indices into the driver's table of shortest spellings (compact family)
+RadiiLex == {0, 1, 3, 5, 6}
 CoordsTiny == {0, 1}
 CoordsZero == {0}
 CoordsSmall == {-1, 0, 1, 2}
